@@ -8,7 +8,7 @@ LEAN_MODULE = "Ctrmml.Properties.C02"
 THEOREMS = ["C02_stream_ends_with_finish_partial", "C02_codec_roundtrip_linear", "C02_codec_roundtrip_segno",
             "C02_codec_roundtrip_segno_once", "C02_codec_roundtrip_loops_nobreak_partial",
             "C02_convert_structured_eq", "C02_codec_roundtrip_loops", "C02_codec_roundtrip_track",
-            "C02_stream_at_offset_partial", "C02_call_return_partial"]
+            "C02_stream_at_offset_partial", "C02_call_return_partial", "C02_double_break_counterexample"]
 LEVEL = "proof"
 STREAM = "conv.events+conv.seq"
 CHUNK = 100
